@@ -7,6 +7,7 @@
      known s r    the instance cache learns s beforehand (r = pos | neg)     take / answer r   the lookup service, as in CloudSched
      hold b / release b   backend b's SendEvent blocks (it honours its context) / continues
      upfail       (forwarder) the upstream answers the next event POST with 503 after it has read the body; the forwarder retries
+     evsp k s     like ev, the line ENDING in one more tag whose value ends in a blank (w:x ): the line's last byte is payload like any other
      evbad k s    like ev, the line carrying one more tag AFTER its own, with a byte that is not UTF-8 (o:Jos<e9>): every other field and
                   tag is as before; the odd tag arrives as it was sent (standalone) or with U+FFFD for the byte (forwarder: protobuf)
      bfail b      backend b's next SendEvent returns an error of its own (a 5xx, not a context error): later events still reach it
@@ -23,21 +24,24 @@ Lines == <<
     "|", "p", ":", "low", "|", "s", ":", "s", "s", "|", "t", ":", "error", "|", "#", "a", ":", "b", ",", "c">>,
   <<"_", "e", "{", "1", ",", "0", "}", ":", "|", "|", "|", "t", ":", "warning", "|", "#", "b">>,
   <<"_", "e", "{", "0", ",", "2", "}", ":", "|", Esc, "|", "p", ":", "normal", "|", "t", ":", "success">>,
-  <<"_", "e", "{", "1", ",", "1", "}", ":", "a", "|", "b", "|", "#", "h", "o", "s", "t", ":", "w", ",", "a", ":", "b">>       \* an event with a host: tag
+  <<"_", "e", "{", "1", ",", "1", "}", ":", "a", "|", "b", "|", "#", "h", "o", "s", "t", ":", "w", ",", "a", ":", "b">>,      \* an event with a host: tag
+  <<"_", "e", "{", "3", ",", "1", "}", ":", "a", Esc, "|", "b">>                        \* backslash-n in the TITLE: two bytes that stay two bytes
 >>
 ASSUME \A i \in 1..Len(Lines) : PLine(Lines[i]).k = "event"
 Cfgs == {[mode |-> "standalone", b |-> b, tokens |-> t, ih |-> ih] : b \in {0, 1, 2}, t \in {1, 2}, ih \in BOOLEAN}
         \cup {[mode |-> "forwarder", b |-> 1, tokens |-> 1, ih |-> FALSE]}
 O(op, k, s) == [op |-> op, k |-> k, s |-> s]
-Ops(c) == IF c.mode = "forwarder" THEN {O("evhttp", k, "") : k \in 1..Len(Lines)} \cup {O("wait", 0, ""), O("upfail", 0, ""), O("ev", 2, "x"), O("evbad", 5, "x")}
+Ops(c) == IF c.mode = "forwarder" THEN {O("evhttp", k, "") : k \in 1..Len(Lines)} \cup {O("wait", 0, ""), O("upfail", 0, ""), O("ev", 2, "x"), O("ev", 6, "x"), O("evbad", 5, "x"), O("evsp", 1, "x")}
           ELSE {O("ev", k, s) : k \in {1, 2}, s \in {"x", "y"}} \cup {O("ev", 3, "x"), O("ev", 4, "y"), O("ev", 5, "x"), O("evhttp", 2, "")} \cup
                {O("known", 0, "x:pos"), O("known", 0, "y:neg"), O("take", 0, ""), O("answer", 0, "pos"), O("answer", 0, "neg"), O("wait", 0, "")} \cup
                {O("hold", b, "") : b \in 1..c.b} \cup {O("release", b, "") : b \in 1..c.b} \cup {O("bfail", b, "") : b \in 1..c.b} \cup
-               {O("evbad", 5, "y"), O("evict", 0, "x"), O("refresh", 0, "x")}
+               {O("evbad", 5, "y"), O("evict", 0, "x"), O("refresh", 0, "x"), O("ev", 6, "y"), O("evsp", 2, "y")}
 Init == cfg \in Cfgs /\ sched = <<>>
 Next == Len(sched) < MaxLen /\ \E o \in Ops(cfg) : sched' = Append(sched, o) /\ UNCHANGED cfg
 Spec == Init /\ [][Next]_<<cfg, sched>>
 Core == {
+  [cfg |-> [mode |-> "standalone", b |-> 1, tokens |-> 1, ih |-> FALSE], sched |-> <<O("known", 0, "x:neg"), O("ev", 6, "x"), O("evsp", 2, "x"), O("evsp", 1, "x"), O("wait", 0, "")>>],
+  [cfg |-> [mode |-> "forwarder", b |-> 1, tokens |-> 1, ih |-> FALSE], sched |-> <<O("ev", 6, "x"), O("evsp", 1, "x"), O("wait", 0, "")>>],
   [cfg |-> [mode |-> "forwarder", b |-> 1, tokens |-> 1, ih |-> FALSE], sched |-> <<O("evbad", 5, "x"), O("ev", 2, "x"), O("wait", 0, "")>>],
   [cfg |-> [mode |-> "standalone", b |-> 2, tokens |-> 1, ih |-> FALSE],
    sched |-> <<O("known", 0, "x:pos"), O("bfail", 1, ""), O("ev", 1, "x"), O("bfail", 2, ""), O("ev", 2, "x"), O("evbad", 5, "x"), O("wait", 0, "")>>],
